@@ -53,6 +53,12 @@ CHECKS = {
         text="Seeded histories push one stream into ChannelStats whole, in a generated partition, and split between two accumulators merged in either order; count/min/max must be identical and exact, mean/var/skew/kurtosis within calibrated tolerances of the two-pass float64 values, constant channels exactly zero variance/skew, nothing non-finite.",
         note="Tolerances are ~20x the worst error observed on the unchanged tree over 8e4 calibration scenarios (recorded in evidence assumptions). n <= 400 (2000 thorough), <= 6 channels. Kernels compiled, 1 thread.",
     ),
+    "C11": dict(
+        level="exploration", ref="DESIGN.md §4 C11",
+        technique="deterministic simulation: seeded streaming folds under two chunkings on a simulated disk with read faults, kernel hit counts observed through a harness spy, vs a per-sample cell reference model; ddmin replay",
+        text="Seeded fold geometries (period/tsamp, accel, nbins, nints, nbands incl. non-dividing), DMs and two gulps per scenario on Filterbank.fold, plus TimeSeries.fold; every cell's hit count and mean is compared with a per-sample model of (sub-integration, sub-band, phase bin), totals with (nsamps-maxdelay)*nchans, the two gulps bitwise with each other, and a synthetic periodic train must occupy one bin. Kernel calls are domain-guarded so a mis-addressed block is reported, not executed.",
+        note="Margin rule: scenarios whose phase is within 1e-4 bin of an edge (or whose integer indices hinge on float rounding) are rejected, so evaluation order cannot decide a verdict. Full-range folds only. Delays from the library (C09).",
+    ),
     "C17": dict(
         level="exploration", ref="DESIGN.md §4 C17",
         technique="deterministic simulation of call histories: seeded update_dm/update_period sequences checked after every call against a one-step reference (fresh cube, single update) and rotation/idempotence/restore invariants; ddmin replay (no fault applies)",
